@@ -323,8 +323,26 @@ pub fn mutate_lexemes(lex: &mut Vec<Lexeme>, t: &mut Tape) {
 }
 
 fn family_mutated(t: &mut Tape, gates: &Gates, valid: bool) -> String {
+    // (a third of the units from the valid generator carry one planted fault of a rule chosen
+    // uniformly - a consistent program in which one rule has something to report: every rule's error
+    // path, labels and context values are computed - and half of those go through unmutated)
+    let mut planted = false;
     let mut lex = if valid {
-        let u = crate::gen_valid::gen_unit(t, gates, &crate::gen_valid::Profile::default());
+        let u = if t.ratio(1, 3) {
+            let kd = crate::gen_valid::ALL_FAULTS[t.below(crate::gen_valid::ALL_FAULTS.len())];
+            let key: Vec<u8> = (0..48).map(|_| t.byte()).collect();
+            let mut big = crate::gen_valid::Profile::default();
+            big.sfc = false;
+            match crate::gen_valid::unit_with_fault_of(kd, &key, gates, &big) {
+                Some(fu) => {
+                    planted = true;
+                    fu
+                }
+                None => crate::gen_valid::gen_unit(t, gates, &crate::gen_valid::Profile::default()),
+            }
+        } else {
+            crate::gen_valid::gen_unit(t, gates, &crate::gen_valid::Profile::default())
+        };
         let mut p = Printer::new(gates, Tape::empty());
         p.library(&u.lib);
         p.finish()
@@ -338,7 +356,7 @@ fn family_mutated(t: &mut Tape, gates: &Gates, valid: bool) -> String {
     gates.take_hits();
     let derived = crate::tape::derived(&[t.byte(), t.byte(), t.byte(), t.byte()], 256);
     let mut mt = Tape::new(&derived);
-    if mt.ratio(5, 6) {
+    if (!planted && mt.ratio(5, 6)) || (planted && mt.flag()) {
         mutate_lexemes(&mut lex, &mut mt);
     }
     let (lay, _) = layout(&lex, &SpellOpts::canonical(), &mut Tape::empty());
